@@ -560,6 +560,8 @@ def _stage2(items):
             c["skip"] = "big"; out.append(c); continue
         if not lp["G"] or (r["ocurv"] == 0 and not any(cc["rel"] != "==" for cc in P["cons"])):
             c["skip"] = "no_inequality"; out.append(c); continue        # refused on purpose: TypeError('lp must have at least one inequality')
+        if not any(lp["c"]) and not any(v for row in lp["G"] + lp["A"] for v in row):
+            c["skip"] = "no_inequality"; out.append(c); continue        # every coefficient cancels: refused on purpose ('lp must have at least one variable')
         rows = [list(g) for g in lp["G"]] + [list(a_) for a_ in lp["A"]]
         rankdef = exactlp.rank(rows, lp["n"]) < lp["n"] or exactlp.rank([list(a_) for a_ in lp["A"]], lp["n"]) < len(lp["A"])
         c["lp"], c["w"], c["rankdef"] = lp, w, rankdef
